@@ -18,6 +18,10 @@ class SimCap(Exception):
     """pass / time cap exceeded: the run is cut (reported, never a verdict by itself)"""
 
 
+class HarnessError(Exception):
+    """an environment callback (simulator / scenario code) raised: never a verdict"""
+
+
 class SimDeadlock(Exception):
     """nothing ready, nothing scheduled, no environment event left"""
 
@@ -106,7 +110,14 @@ class SimLoop(asyncio.BaseEventLoop):
 
     def _process_events(self, event_list) -> None:
         for fn in event_list:
-            fn()
+            try:
+                fn()
+            except (SimCap, SimDeadlock, HarnessError):
+                raise
+            except BaseException as exc:
+                import traceback
+
+                raise HarnessError(''.join(traceback.format_exception(type(exc), exc, exc.__traceback__))[-3000:]) from None
         for fd in list(self._fd_readers):
             if fd in self._fd_readers and self.fd_readable(fd):
                 cb, args = self._fd_readers[fd]
